@@ -14,7 +14,7 @@ from . import srcindex
 
 class Obligation:
     def __init__(self, name, run, props, descr='', bounds='', max_paths=20000, functions=(), tier='quick',
-                 expect_ok=True, scenario=None, known_key=None):
+                 expect_ok=True, scenario=None, known_key=None, wall_s=None):
         self.name = name
         self.run = run              # run(E) -> (value, extra)
         self.props = props          # props(E, res) -> list of (label, formula | bool)
@@ -26,6 +26,7 @@ class Obligation:
         self.expect_ok = expect_ok  # vacuity: at least one path must reach a success exit
         self.scenario = scenario    # scenario(E, res, model) -> json-able dict for native replay
         self.known_key = known_key
+        self.wall_s = wall_s     # hard wall-clock cap for this obligation (default: what is left of the tier cap)
 
 
 def model_to_dict(m, limit=600):
@@ -142,11 +143,12 @@ def run_obligation(E, obl, jobs=16, deadline=None):
     t0 = time.time()
     E.encoded = {}
     E.models_used = {}
+    E.cuts = {}
     result = {'name': obl.name, 'descr': obl.descr, 'bounds': obl.bounds, 'status': 'discharged', 'paths': 0,
               'exits': {}, 'queries': 0, 'violations': [], 'problems': []}
     try:
         leaves, stats = explore_parallel(E, obl.run, make_on_path(E, obl), jobs=jobs, max_paths=obl.max_paths,
-                                         deadline=deadline)
+                                         deadline=deadline, wall_s=obl.wall_s)
     except Inconclusive as e:
         result['status'] = 'inconclusive'
         result['problems'].append(str(e)[:1500])
